@@ -126,6 +126,9 @@ Proof.
     destruct (g_handle_inv (s_nodes s) c r) as [g fired]. eexists. reflexivity.
   - exists 0. eexists. reflexivity.
   - exists 0. destruct cancelled; [simpl in Nb; rewrite Nb|]; eexists; reflexivity.
+  - (* FOutAdd *)
+    exists 0. apply Nat.ltb_lt in Fo. rewrite Fo. destruct (g_add_out_released (s_nodes s) n) as [g [a b]]. eexists. reflexivity.
+  - exists 0. eexists. reflexivity.
 Qed.
 
 Lemma find_task_in : forall ts tid st, NoDup (map fst ts) -> In (tid, st) ts -> find_task ts tid = Some st.
